@@ -1,6 +1,6 @@
 #!/bin/bash
 cd /verif
-for p in C17 C16 C03 C11 C08 C05 C12 C13 C04; do
+for p in ${THOROUGH_LIST:-C17 C16 C03 C11 C08 C05 C12 C13 C09 C04}; do
   t0=$(date +%s); ./check $p --tier thorough > /tmp/thorough_$p.log 2>&1; rc=$?; t1=$(date +%s)
   echo "$p rc=$rc wall=$((t1-t0))s $(tail -1 /tmp/thorough_$p.log)"
   cp evidence/$p.json /tmp/thorough_evidence_$p.json
